@@ -257,6 +257,10 @@ class Engine:
                     if src in tracked and st[1]["l"] not in tracked:
                         tracked.add(st[1]["l"]); changed = True
                 t = body.term(b)
+                if t[0] == "Call" and (t[1].get("f") or "").endswith("ops::Try::branch") and t[1]["args"] and not t[1]["dst"]["p"]:
+                    src = op_local(t[1]["args"][0]) if t[1]["args"][0][0] in ("c", "m") else None
+                    if src in tracked and t[1]["dst"]["l"] not in tracked:
+                        tracked.add(t[1]["dst"]["l"]); changed = True
                 if t[0] == "Call" and R.result_helper(t[1]) and t[1]["args"] and not t[1]["dst"]["p"]:
                     src = self._referent_local(body, t[1]["args"][0])
                     if src in tracked and t[1]["dst"]["l"] not in tracked:
@@ -472,6 +476,19 @@ class Engine:
                 if tgt is None:
                     continue
                 base_facts = self._facts_kill(f2, dl) if dl is not None else f2
+                if (c.get("f") or "").endswith("ops::Try::branch") and c["args"]:
+                    # the `?` operator: `Try::branch(opt)` answers ControlFlow::Continue(v) for Some / Ok and Break(residual) for None / Err -- what is known about the
+                    # operand's variant carries over to the answer's (a 'held iff Some' reservation stays correlated through `let (slot, len) = reserve()?;`)
+                    src = op_local(c["args"][0]) if c["args"][0][0] in ("c", "m") else None
+                    nf = base_facts
+                    if src is not None and dl is not None:
+                        is_opt = body.locals[src]["ty"].startswith("std::option::Option")
+                        for fct in f2:
+                            if fct[0] == src and fct[1] == "variant":
+                                cont = (fct[2] == 1) if is_opt else (fct[2] == 0)
+                                nf = nf | {(dl, "variant", 0 if cont else 1)}
+                    outs.append((tgt, (held, nf)))
+                    continue
                 if helper and c["args"]:
                     src = self._referent_local(body, c["args"][0])
                     nf = base_facts
